@@ -16,10 +16,11 @@
    else the structure's, pInvalidator and pError included); [limited s e] the KNOWN limitation: e spells out the
    schema default of Visibility / IsDeprecated / ImposedAccessMode / AccessMode / Cachable / Streamable while s
    declares another value; [seq_results] the children parsed one after the other.
-   Second part (P_C17b.v): [wf_node] the well-formedness of a declared node of ANY modelled kind (all 17
+   Second part (P_C17b.v): [wf_node] the well-formedness of a declared node of ANY kind the code parses (all 20
    constructors of [snode]: Node, Category, Integer, IntReg, MaskedIntReg, Boolean, Command, Enumeration with its
-   entries, Float, FloatReg, String, StringReg, Register, IntSwissKnife, Port, StructReg with its entries - outside
-   the known limitation -, Group of such nodes, nested): literal values inside their types, sniffed references
+   entries, Float, FloatReg, String, StringReg, Register, Converter, IntConverter, SwissKnife, IntSwissKnife, Port,
+   StructReg with its entries - outside the known limitation -, Group of such nodes, nested; formula and
+   expression texts are opaque strings at this level, formula::parse is property C05): literal values inside their types, sniffed references
    are identifiers, a register's element base carries no pInvalidator; [expect fresh n] what parsing n must
    produce: the nodes stored on the way (embedded swiss knives, enum entries named $symbolic_freshid), the
    normalised node(s) handed to the caller (a StructReg: its MaskedIntReg twins [twin_src]), the invalidator
@@ -139,7 +140,7 @@ Theorem C17_register_base : forall r k, wf_rb r -> hn rb_tags k -> p_rb (r_rb r 
 Proof. exact p_rb_rt. Qed.
 Print Assumptions C17_register_base.
 
-(* round trip for EVERY modelled kind (the code after 70ffa75): parsing the rendered declaration produces exactly
+(* round trip for EVERY node kind the code parses (mod.rs dispatch; the code after 70ffa75): parsing the rendered declaration produces exactly
    the expected nodes, registrations and fresh id; for a StructReg these are the MaskedIntReg twins of
    C17_struct_desugar, for a Group what its members produce in sequence *)
 Theorem C17_roundtrip : forall n fresh, wf_node n -> parse_node true fresh (render n) = Ok (expect fresh n).
@@ -208,3 +209,42 @@ Theorem C17_comments_ignored_example :
   i_value (n_integer interrupted_integer) = VkValue 123.
 Proof. exact interrupted_example_ok. Qed.
 Print Assumptions C17_comments_ignored_example.
+
+(* the formula-carrying kinds on their own: Converter (FormulaTo / FormulaFrom / pValue, Slope, IsLinear, display
+   properties), IntConverter, SwissKnife, IntSwissKnife; pVariable / Constant / Expression lists with their Name
+   attributes in order, constants as i64 / f64 literals, formula and expression texts unchanged *)
+Theorem C17_roundtrip_formula_kinds : forall fixed fresh,
+  (forall n, wf_fconv n -> parse_node fixed fresh (render (SnConverter n)) = Ok (pres1 fresh (NdConverter (n_fconv n)))) /\
+  (forall n, wf_iconv n -> parse_node fixed fresh (render (SnIntConverter n)) = Ok (pres1 fresh (NdIntConverter (n_iconv n)))) /\
+  (forall n, wf_fswiss n -> parse_node fixed fresh (render (SnSwissKnife n)) = Ok (pres1 fresh (NdSwissKnife (n_fswiss n)))) /\
+  (forall n, wf_iswiss n -> parse_node fixed fresh (render (SnIntSwissKnife n)) = Ok (pres1 fresh (NdIntSwissKnife (n_iswiss n)))).
+Proof. exact roundtrip_formula_kinds. Qed.
+Print Assumptions C17_roundtrip_formula_kinds.
+
+(* ... and the stored node carries the declared name and kind, the declared pValue reference, the formula texts and
+   the variable / constant / expression lists *)
+Theorem C17_names_formula_kinds :
+  (forall n, name_kind (NdConverter (n_fconv n)) = (a_name (fc_attr n), 14) /\
+             fc_pvalue (n_fconv n) = fc_pvalue n /\ fc_to (n_fconv n) = fc_to n /\ fc_from (n_fconv n) = fc_from n /\
+             fc_vars (n_fconv n) = fc_vars n /\ fc_consts (n_fconv n) = fc_consts n /\ fc_exprs (n_fconv n) = fc_exprs n) /\
+  (forall n, name_kind (NdIntConverter (n_iconv n)) = (a_name (ic_attr n), 15) /\
+             ic_pvalue (n_iconv n) = ic_pvalue n /\ ic_to (n_iconv n) = ic_to n /\ ic_from (n_iconv n) = ic_from n /\
+             ic_vars (n_iconv n) = ic_vars n /\ ic_exprs (n_iconv n) = ic_exprs n) /\
+  (forall n, name_kind (NdSwissKnife (n_fswiss n)) = (a_name (fk_attr n), 16) /\
+             fk_formula (n_fswiss n) = fk_formula n /\ fk_vars (n_fswiss n) = fk_vars n /\
+             fk_consts (n_fswiss n) = fk_consts n /\ fk_exprs (n_fswiss n) = fk_exprs n) /\
+  (forall n, name_kind (NdIntSwissKnife (n_iswiss n)) = (a_name (sk_attr n), 17) /\
+             sk_formula (n_iswiss n) = sk_formula n /\ sk_vars (n_iswiss n) = sk_vars n /\ sk_exprs (n_iswiss n) = sk_exprs n).
+Proof. exact names_formula_kinds. Qed.
+Print Assumptions C17_names_formula_kinds.
+
+(* non-vacuity: a Converter with two variables, a float constant, an expression, hexadecimal DisplayPrecision,
+   Slope Varying and IsLinear Yes *)
+Theorem C17_formula_example :
+  wf_fconv example_converter /\
+  exists p, parse_node true 0 (render (SnConverter example_converter)) = Ok p /\
+    map (fun d => match d with
+                  | NdConverter c => (fc_pvalue c, slope_ord (fc_slope c), fc_linear c, fc_dprec c, List.length (fc_vars c))
+                  | _ => ([], -1, false, -1, O) end) (pr_ret p) = [([86], 2, true, 10, 2%nat)].
+Proof. exact formula_example. Qed.
+Print Assumptions C17_formula_example.
